@@ -16,6 +16,7 @@ package main
 
 import (
 	"crypto/sha1"
+	"encoding/binary"
 	"fmt"
 	"runtime/debug"
 	"sort"
@@ -50,10 +51,11 @@ type Budget struct {
 	ConfChanges int    `json:"conf_changes"`
 	Transfers   int    `json:"transfers"`
 	Expires     int    `json:"lease_expiries"` // pass 2 only
+	Delays      int    `json:"delays"`         // messages (or duplicates) parked outside the FIFO pool
 }
 
 type used struct {
-	Proposals, Drops, Dups, Crashes, Heartbeats, Compacts, ConfChanges, Transfers, Expires uint8
+	Proposals, Drops, Dups, Crashes, Heartbeats, Compacts, ConfChanges, Transfers, Expires, Delays uint8
 }
 
 // Event kinds.
@@ -71,11 +73,22 @@ const (
 	evTransfer
 	evExpire
 	evIsolate
+	// Delay. Box B delivers in FIFO order, so "this message arrives much later" would cost one
+	// deviation per message that overtakes it. The three events below make an arbitrarily long
+	// delay one deviation: a pooled message (evDelay) or a duplicate of it (evDupDelay) is
+	// parked in the cluster's `held` set, where nothing happens to it, and evRelease puts it
+	// back at the tail of the pool at any later quiescent point (free) or while other messages
+	// are in flight (one more deviation). A stale MsgSnap / MsgApp / vote reaching a node long
+	// after that node moved on (compacted, committed further, changed term) is such a path.
+	evDelay
+	evDupDelay
+	evRelease
 	evKinds
 )
 
-var evNames = [...]string{"deliver", "drop", "dup", "campaign", "heartbeat", "propose", "crash", "restart", "compact", "proposeConf", "transferLeader", "leaseExpire", "isolate"}
-var evShort = [...]string{"D", "X", "U", "C", "H", "P", "K", "R", "S", "F", "T", "E", "I"}
+var evNames = [...]string{"deliver", "drop", "dup", "campaign", "heartbeat", "propose", "crash", "restart", "compact", "proposeConf", "transferLeader", "leaseExpire", "isolate",
+	"delay", "dupDelayed", "release"}
+var evShort = [...]string{"D", "X", "U", "C", "H", "P", "K", "R", "S", "F", "T", "E", "I", "Y", "V", "Z"}
 
 // Conf-change variants (A field of evConf). "J" is the joiner id (Members+1), "L" the last
 // initial member (Members).
@@ -143,8 +156,10 @@ type outMsg struct {
 type effects struct {
 	msgs        []outMsg
 	applied     []appliedEnt
-	snapApplied bool
-	snapIgnored bool
+	snapApplied bool   // a snapshot from a Ready was installed in the storage and the application
+	snapIgnored bool   // Ready carried a snapshot the storage refused (ErrSnapOutOfDate)
+	snapIdx     uint64 // index of that snapshot (either case)
+	snapBelow   uint64 // snapIgnored / obsolete: the applied index the snapshot did not exceed
 	panicVal    string
 	panicStack  string
 }
@@ -160,6 +175,29 @@ type live struct {
 
 	confState  pb.ConfState
 	appliedIdx uint64
+	// appDigest stands for the application state machine: a running hash over every entry
+	// applied so far (index, term, type, data). compact() stores it as the snapshot payload,
+	// installing a snapshot replaces it by the payload. The StateMachineSafety invariant
+	// recomputes the same hash from the commit ledger, so a snapshot that carries (or a restore
+	// that produces) a state different from "the committed prefix up to its index" is caught,
+	// not only a wrong (index, term) boundary.
+	appDigest digest
+}
+
+type digest [8]byte
+
+func (d digest) next(index, term uint64, typ pb.EntryType, data []byte) digest {
+	h := sha1.New()
+	h.Write(d[:])
+	var b [24]byte
+	binary.LittleEndian.PutUint64(b[0:], index)
+	binary.LittleEndian.PutUint64(b[8:], term)
+	binary.LittleEndian.PutUint64(b[16:], uint64(typ))
+	h.Write(b[:])
+	h.Write(data)
+	var out digest
+	copy(out[:], h.Sum(nil))
+	return out
 }
 
 type storageImage struct {
@@ -250,12 +288,18 @@ func catch(eff *effects) {
 }
 
 func trimStack(s string) string {
-	// keep the frames inside the raft library, drop harness frames
+	// keep the frames inside the raft library, drop harness frames; drop the argument lists
+	// (pointer values differ from run to run, and a counterexample is only reported if five
+	// re-executions produce the identical report)
 	lines := strings.Split(s, "\n")
 	var out []string
 	for i := 0; i+1 < len(lines); i++ {
 		if strings.Contains(lines[i], "etcd/raft") && !strings.HasPrefix(lines[i], "\t") {
-			out = append(out, strings.TrimSpace(lines[i]), strings.TrimSpace(lines[i+1]))
+			fn := strings.TrimSpace(lines[i])
+			if j := strings.LastIndex(fn, "("); j > 0 && strings.HasSuffix(fn, ")") {
+				fn = fn[:j]
+			}
+			out = append(out, fn, strings.TrimSpace(lines[i+1]))
 		}
 		if len(out) >= 16 {
 			break
@@ -268,14 +312,11 @@ func trimStack(s string) string {
 func panicFunc(stack string) string {
 	for _, l := range strings.Split(stack, "\n") {
 		if strings.Contains(l, "etcd/raft") && !strings.HasPrefix(l, "/") {
-			if strings.Contains(l, "Panicf") || strings.Contains(l, ".Panic(") {
+			if strings.Contains(l, "Panicf") || strings.HasSuffix(l, ".Panic") {
 				continue
 			}
 			if i := strings.LastIndex(l, "/"); i >= 0 {
 				l = l[i+1:]
-			}
-			if j := strings.LastIndex(l, "("); j > 0 {
-				l = l[:j]
 			}
 			return l
 		}
@@ -296,13 +337,27 @@ func (n *live) pump(eff *effects) {
 			n.st.SetHardState(rd.HardState)
 		}
 		if !raft.IsEmptySnap(rd.Snapshot) {
-			if err := n.st.ApplySnapshot(rd.Snapshot); err != nil {
+			// Receiver side of MsgSnap: the library decided to restore, the application
+			// persists the snapshot (ApplySnapshot replaces the storage's log by the
+			// snapshot boundary) and loads it into its state machine; the applied index
+			// follows. raftexample's publishSnapshot treats a snapshot at or below the
+			// applied index as fatal, MemoryStorage refuses one at or below its own
+			// snapshot: both are recorded and raised as ObsoleteSnapshotInReady, and the
+			// application state is left alone (like a real application, we do not roll a
+			// state machine back).
+			idx := rd.Snapshot.Metadata.Index
+			eff.snapIdx = idx
+			err := n.st.ApplySnapshot(rd.Snapshot)
+			switch {
+			case err != nil || idx <= n.appliedIdx:
 				eff.snapIgnored = true
-			} else {
+				eff.snapBelow = n.appliedIdx
+			default:
 				eff.snapApplied = true
+				n.confState = rd.Snapshot.Metadata.ConfState
+				n.appliedIdx = idx
+				copy(n.appDigest[:], rd.Snapshot.Data)
 			}
-			n.confState = rd.Snapshot.Metadata.ConfState
-			n.appliedIdx = rd.Snapshot.Metadata.Index
 		}
 		if len(rd.Entries) > 0 {
 			if err := n.st.Append(rd.Entries); err != nil {
@@ -319,6 +374,7 @@ func (n *live) pump(eff *effects) {
 		}
 		for _, e := range rd.CommittedEntries {
 			eff.applied = append(eff.applied, appliedEnt{e.Index, e.Term, e.Type, e.Data})
+			n.appDigest = n.appDigest.next(e.Index, e.Term, e.Type, e.Data)
 			switch e.Type {
 			case pb.EntryConfChange:
 				var cc pb.ConfChange
@@ -373,7 +429,12 @@ func (n *live) feed(in *input) (eff effects) {
 	case inRestart:
 		n.restart()
 	case inCompact:
-		if _, err := n.st.CreateSnapshot(n.appliedIdx, &n.confState, []byte(fmt.Sprintf("snap@%d", n.appliedIdx))); err != nil {
+		// The application (leader or follower alike) snapshots its state machine at its
+		// applied index and discards the log up to there, as raftexample's
+		// maybeTriggerSnapshot does (with snapshotCatchUpEntriesN = 0: the harshest choice,
+		// a follower that is one entry behind already needs a MsgSnap). The RawNode is not
+		// told; it finds out through its Storage (FirstIndex / ErrCompacted).
+		if _, err := n.st.CreateSnapshot(n.appliedIdx, &n.confState, append([]byte(nil), n.appDigest[:]...)); err != nil {
 			panic(err)
 		}
 		if err := n.st.Compact(n.appliedIdx); err != nil {
@@ -410,6 +471,10 @@ func (n *live) restart() {
 	snap, _ := n.st.Snapshot()
 	n.confState = snap.Metadata.ConfState
 	n.appliedIdx = snap.Metadata.Index
+	// the state machine is rebuilt from the snapshot; the entries above it are re-applied
+	// from the first Ready
+	n.appDigest = digest{}
+	copy(n.appDigest[:], snap.Data)
 	rn, err := raft.NewRawNode(n.raftConfig())
 	if err != nil {
 		panic(err)
@@ -444,12 +509,15 @@ type node struct {
 	alive      bool
 	confState  pb.ConfState
 	appliedIdx uint64
+	appDigest  digest // application state (see live.appDigest)
 
 	hs       pb.HardState // persisted
 	log      []pb.Entry   // persisted entries (first..last)
+	firstIdx uint64       // first index of the storage's log (snapIdx+1 in this harness)
 	snapIdx  uint64
 	snapTrm  uint64
 	snapConf pb.ConfState
+	snapData []byte
 	status   raft.Status
 	votes    []voteRec
 	elapsed  int
@@ -462,15 +530,16 @@ type voteRec struct {
 }
 
 func freeze(n *live, parent *node, in *input, eff *effects, h hist) *node {
-	f := &node{cfg: n.cfg, id: n.id, h: h, parent: parent, eff: eff, alive: n.alive, confState: n.confState, appliedIdx: n.appliedIdx}
+	f := &node{cfg: n.cfg, id: n.id, h: h, parent: parent, eff: eff, alive: n.alive, confState: n.confState, appliedIdx: n.appliedIdx, appDigest: n.appDigest}
 	if in != nil {
 		f.in = *in
 	}
 	hs, _, _ := n.st.InitialState()
 	f.hs = hs
 	snap, _ := n.st.Snapshot()
-	f.snapIdx, f.snapTrm, f.snapConf = snap.Metadata.Index, snap.Metadata.Term, snap.Metadata.ConfState
+	f.snapIdx, f.snapTrm, f.snapConf, f.snapData = snap.Metadata.Index, snap.Metadata.Term, snap.Metadata.ConfState, snap.Data
 	fi, _ := n.st.FirstIndex()
+	f.firstIdx = fi
 	li, _ := n.st.LastIndex()
 	if li >= fi {
 		if e, err := n.st.Entries(fi, li+1, ^uint64(0)); err == nil {
@@ -635,7 +704,7 @@ func (s *sim) thaw(f *node) *live {
 	}
 	var n *live
 	if g.img != nil {
-		n = &live{cfg: g.cfg, id: g.id, st: g.img.materialise(), alive: false, confState: g.confState, appliedIdx: g.appliedIdx}
+		n = &live{cfg: g.cfg, id: g.id, st: g.img.materialise(), alive: false, confState: g.confState, appliedIdx: g.appliedIdx, appDigest: g.appDigest}
 	} else {
 		n, _ = bootLive(g.cfg, g.id)
 	}
@@ -664,29 +733,39 @@ type ledgerEnt struct {
 
 // Coverage flags of a transition.
 const (
-	fTwoLeaders      uint32 = 1 << iota // >= 2 live leaders (necessarily in different terms)
-	fTruncation                         // a persisted entry was replaced / the log got shorter
-	fCommitOlderTerm                    // commit index moved over an entry of an earlier term than the node's
-	fSnapSent                           // MsgSnap emitted
-	fSnapApplied                        // snapshot restored by a follower
-	fConfApplied                        // configuration entry applied (beyond bootstrap)
-	fJoint                              // some node is in a joint configuration
-	fLeaderStepDown                     // a leader left leadership in this event
-	fStaleTermMsg                       // delivered message carried a term below the receiver's
-	fRestartWithLog                     // restart of a node holding entries beyond bootstrap
-	fLeaderElected                      // a node became leader
-	fCommitAdvanced                     // ledger grew
-	fLearner                            // some node tracks a learner
-	fVoteRejected                       // a vote / pre-vote rejection was emitted
-	fPreVote                            // MsgPreVote emitted
-	fCheckQuorumDown                    // leader stepped down on a tick (CheckQuorum)
-	fTransfer                           // MsgTimeoutNow emitted
-	fFlags           = iota
+	fTwoLeaders        uint32 = 1 << iota // >= 2 live leaders (necessarily in different terms)
+	fTruncation                           // a persisted entry was replaced / the log got shorter
+	fCommitOlderTerm                      // commit index moved over an entry of an earlier term than the node's
+	fSnapSent                             // MsgSnap emitted
+	fSnapApplied                          // snapshot restored by a follower
+	fConfApplied                          // configuration entry applied (beyond bootstrap)
+	fJoint                                // some node is in a joint configuration
+	fLeaderStepDown                       // a leader left leadership in this event
+	fStaleTermMsg                         // delivered message carried a term below the receiver's
+	fRestartWithLog                       // restart of a node holding entries beyond bootstrap
+	fLeaderElected                        // a node became leader
+	fCommitAdvanced                       // ledger grew
+	fLearner                              // some node tracks a learner
+	fVoteRejected                         // a vote / pre-vote rejection was emitted
+	fPreVote                              // MsgPreVote emitted
+	fCheckQuorumDown                      // leader stepped down on a tick (CheckQuorum)
+	fTransfer                             // MsgTimeoutNow emitted
+	fCompact                              // compact(n) executed (snapshot taken at applied, log discarded up to it)
+	fCompactFollower                      // ... on a node that is not the leader
+	fCompacted                            // state property: some node's storage starts at a snapshot (index > 0)
+	fSnapDelivered                        // MsgSnap stepped by a live receiver
+	fSnapStale                            // ... whose index is at or below the receiver's commit index
+	fSnapBehindCompact                    // ... and below the receiver's own snapshot index, at a term the receiver accepts
+	fRestartCompacted                     // restart from a storage that starts at a snapshot
+	fReleased                             // a delayed message was released back into the pool
+	fFlags             = iota
 )
 
 var flagNames = [...]string{"two_live_leaders_in_different_terms", "conflict_truncations", "commits_of_earlier_term_entries", "snapshots_sent", "snapshots_applied",
 	"conf_changes_applied", "joint_configurations", "leader_step_downs", "stale_term_deliveries", "restarts_with_log", "leaders_elected", "commit_advances", "learner_configurations",
-	"vote_rejections", "pre_votes", "check_quorum_step_downs", "timeout_now_sent"}
+	"vote_rejections", "pre_votes", "check_quorum_step_downs", "timeout_now_sent",
+	"compactions", "compactions_on_non_leaders", "some_storage_compacted", "msgsnap_deliveries", "stale_msgsnap_deliveries_index_at_or_below_receiver_commit",
+	"stale_msgsnap_handled_after_receiver_compacted_beyond_it", "restarts_from_compacted_storage", "delayed_messages_released"}
 
 type violation struct {
 	Kind   string
@@ -704,6 +783,7 @@ type cluster struct {
 
 	nodes   []*node
 	pool    []pmsg
+	held    []pmsg // delayed messages: out of the pool until released (see evDelay)
 	nextSeq uint16
 	used    used
 	iso     uint8 // node cut off from the others (0: none): its traffic is lost on delivery
@@ -749,6 +829,15 @@ func (c *cluster) findMsg(seq uint16) int {
 	return -1
 }
 
+func (c *cluster) findHeld(seq uint16) int {
+	for i := range c.held {
+		if c.held[i].seq == seq {
+			return i
+		}
+	}
+	return -1
+}
+
 func (c *cluster) clone() *cluster {
 	d := &cluster{sim: c.sim, cfg: c.cfg, bud: c.bud, fifo: c.fifo, nextSeq: c.nextSeq, used: c.used, iso: c.iso}
 	if len(c.nodes) <= len(d.nodesArr) {
@@ -758,6 +847,9 @@ func (c *cluster) clone() *cluster {
 		d.nodes = append([]*node(nil), c.nodes...)
 	}
 	d.pool = append(make([]pmsg, 0, len(c.pool)+4), c.pool...)
+	if len(c.held) > 0 {
+		d.held = append(make([]pmsg, 0, len(c.held)+1), c.held...)
+	}
 	d.leaderOf, d.ledger = c.leaderOf, c.ledger // shared until written
 	return d
 }
@@ -795,6 +887,39 @@ func (c *cluster) step(e Event) *cluster {
 		d.pool = append(d.pool, p)
 		d.used.Dups++
 		return d
+	case evDelay:
+		i := c.findMsg(e.A)
+		if i < 0 || int(c.used.Delays) >= c.bud.Delays {
+			return nil
+		}
+		d := c.clone()
+		d.held = append(d.held, d.pool[i])
+		d.pool = append(d.pool[:i], d.pool[i+1:]...)
+		d.used.Delays++
+		return d
+	case evDupDelay:
+		i := c.findMsg(e.A)
+		if i < 0 || int(c.used.Delays) >= c.bud.Delays || int(c.used.Dups) >= c.bud.Dups {
+			return nil
+		}
+		d := c.clone()
+		p := d.pool[i]
+		p.seq = d.nextSeq
+		d.nextSeq++
+		d.held = append(d.held, p)
+		d.used.Delays++
+		d.used.Dups++
+		return d
+	case evRelease:
+		i := c.findHeld(e.A)
+		if i < 0 {
+			return nil
+		}
+		d := c.clone()
+		d.pool = append(d.pool, d.held[i])
+		d.held = append(d.held[:i], d.held[i+1:]...)
+		d.flags |= fReleased
+		return d
 	case evDeliver:
 		i := c.findMsg(e.A)
 		if i < 0 {
@@ -812,6 +937,15 @@ func (c *cluster) step(e Event) *cluster {
 		}
 		if p.m.Term != 0 && p.m.Term < n.status.Term {
 			d.flags |= fStaleTermMsg
+		}
+		if p.m.Type == pb.MsgSnap {
+			d.flags |= fSnapDelivered
+			if si := p.m.Snapshot.Metadata.Index; si <= n.status.Commit {
+				d.flags |= fSnapStale
+				if si < n.snapIdx && p.m.Term >= n.status.Term {
+					d.flags |= fSnapBehindCompact
+				}
+			}
 		}
 		g := c.sim.exec(n, &input{k: inStep, msg: p.m, enc: p.enc})
 		d.nodes[n.id-1] = g
@@ -864,12 +998,19 @@ func (c *cluster) step(e Event) *cluster {
 		if len(n.log) > 0 && n.log[len(n.log)-1].Index > uint64(c.cfg.Members) {
 			fl |= fRestartWithLog
 		}
+		if n.snapIdx > 0 {
+			fl |= fRestartCompacted
+		}
 		in = input{k: inRestart}
 	case evCompact:
 		if !n.alive || int(u.Compacts) >= c.bud.Compacts || n.appliedIdx <= n.snapIdx || n.appliedIdx > n.lastIndex() {
 			return nil
 		}
 		u.Compacts++
+		fl |= fCompact
+		if !n.isLeader() {
+			fl |= fCompactFollower
+		}
 		in = input{k: inCompact}
 	case evConf:
 		if !n.isLeader() || int(u.ConfChanges) >= c.bud.ConfChanges || e.A >= ccVariants || !c.cfg.Joiner {
@@ -918,8 +1059,13 @@ func (c *cluster) absorb(n, before *node, e Event) {
 		before = zeroNode
 	}
 	if eff.panicVal != "" {
+		// A panic anywhere inside Step / Ready / Advance / Campaign / ... is caught in
+		// live.feed and is a violation of its own. What the node had already written to its
+		// storage before panicking is still there and is checked too, so that the report
+		// shows e.g. the regressed HardState next to the panic it led to.
 		c.viol = append(c.viol, violation{Kind: "Panic", Func: panicFunc(eff.panicStack),
 			Detail: fmt.Sprintf("node %d: the library panicked handling %s: %s\n%s", n.id, evNames[e.K], eff.panicVal, eff.panicStack)})
+		c.checkPersisted(n, before, eff, e)
 		return
 	}
 	for i := range eff.msgs {
@@ -1019,7 +1165,13 @@ func descEntry(e *pb.Entry) string {
 // describe renders an event against the current (pre-)state.
 func (c *cluster) describe(e Event) string {
 	switch e.K {
-	case evDeliver, evDrop, evDup:
+	case evRelease:
+		i := c.findHeld(e.A)
+		if i < 0 {
+			return fmt.Sprintf("release(#%d ?)", e.A)
+		}
+		return fmt.Sprintf("release(%s) [delayed message re-enters the network]", descMsg(&c.held[i].m))
+	case evDeliver, evDrop, evDup, evDelay, evDupDelay:
 		i := c.findMsg(e.A)
 		if i < 0 {
 			return fmt.Sprintf("%s(#%d ?)", evNames[e.K], e.A)
@@ -1064,6 +1216,12 @@ func (c *cluster) summary() string {
 	fmt.Fprintf(&b, "  pool(%d):", len(c.pool))
 	for _, p := range c.pool {
 		fmt.Fprintf(&b, " {%s}", descMsg(&p.m))
+	}
+	if len(c.held) > 0 {
+		fmt.Fprintf(&b, "\n  delayed(%d):", len(c.held))
+		for _, p := range c.held {
+			fmt.Fprintf(&b, " {%s}", descMsg(&p.m))
+		}
 	}
 	return b.String()
 }
